@@ -75,13 +75,13 @@ def family(tier):
 
 
 def bounds(tier):
-    return {"expressions": len(family(tier)), "placements": ["derivative", "intermediate"], "grid": "V8 x V8 x {0.5, 2}"}
+    return {"expressions": len(family(tier)), "placements": ["derivative", "intermediate", "intermediate in another component than its states"], "grid": "V8 x V8 x {0.5, 2}"}
 
 
 def items(tier):
     its = []
     for key, e, ns in family(tier):
-        for place in ("der", "inter"):
+        for place in ("der", "inter", "inter-other-component"):
             its.append({"key": f"{key}|{place}", "kind": "sing", "expr": e, "place": place, "nsing": ns, "sample": {"key": key, "place": place, "expr": L.render(e)}})
     return its
 
@@ -131,7 +131,11 @@ def run_item(item):
         assigns = [("dx_dt", e), ("dy_dt", L.bin_("-", v_("p"), v_("y")))]
     else:
         assigns = [("w", e), ("dx_dt", L.bin_("-", L.bin_("*", v_("w"), v_("p")), v_("x"))), ("dy_dt", L.bin_("-", v_("p"), v_("y")))]
-    sp = models.spec([("x", n_("0.5")), ("y", n_("1.5"))], [("p", n_("0.5"))], assigns)
+    comp = None
+    if item["place"] == "inter-other-component":
+        # the expression lives in component B, the states it is singular in are declared in A
+        comp = {"x": "A", "y": "A", "dx_dt": "A", "dy_dt": "A", "p": "B", "w": "B"}
+    sp = models.spec([("x", n_("0.5")), ("y", n_("1.5"))], [("p", n_("0.5"))], assigns, comp=comp)
     text = models.spec_text(sp)
     kind = key.split("|")[0]
 
